@@ -81,7 +81,7 @@ for sub, author, confdir, detfile, fmt in SOURCES:
                 "ported_to_current_tree": ported,
                 "what_it_needs_to_manifest": notes.strip()[:3000],
                 "confirmed_in_scratch_worktree": {
-                    "command": f"lib/confirm_seeded.sh seeded/{sub}/{name} {n} .build/{confdir}",
+                    "command": ("CONFIRM_PROFILE=--release " if sub == "_incoming6" and key != "C04/1" else "") + f"lib/confirm_seeded.sh seeded/{sub}/{name} {n} .build/{confdir}",
                     "existing_suite_passes_with_change": True,
                     "demonstration_fails_with_change": True,
                     "demonstration_passes_without_change": True,
